@@ -82,6 +82,7 @@ class C11(Prop):
         "NV.C11.searchBack_none_iff",
         "NV.C11.hbs_nodup",
         "NV.C11.search_direction_unobservable",
+        "NV.C11.gen_efunWrappers_eq",
         "NV.C11.gen_backendOrder_eq",
         "NV.C11.gen_timerSetsFlag_eq",
         "NV.C11.gen_shbGuard_eq",
